@@ -286,16 +286,35 @@ def transmitter(ctx, top_claim):
     for m_ in range(nmodes):             # which kind of command do the unspecified modes use? (decided on a byte with PID nibble != 0)
         if m_ in mode_kind:
             continue
-        v, _ = sim.comb(OUT, {V: 1, B: 1, M: m_, N: 0, D: 0xFF, G: 1}, idle)
+        v, _ = sim.comb(OUT, dict({n: (ir.signals[n].init or 0) for n in sim.by if n != G and sim.domain(n) == 'sync'}, **{V: 1, B: 1, M: m_, N: 0, D: 0xFF, G: 1}), idle)
         mode_kind[m_] = 'pid' if v == (TXCMD | 0xF) else 'nopid' if v == TXCMD else 'neither(0x%02x)' % v
 
+    # registers of the transmitter other than the bus request: every value such a register can hold in the state (forward
+    # dataflow over the FSM, sa/flow.py) is swept together with the inputs -- the stated behaviour must not depend on history
+    from ..flow import reg_flow, TOP
+    extra = sorted(n for n in sim.by if n != G and sim.domain(n) == 'sync')
+    xvals = {}
+    for n in extra:
+        ctx.need(isinstance(ir.signals[n].w, int) and ir.signals[n].w <= 2, 'extra register %s of the transmitter is a small flag' % n)
+        _, poss = reg_flow(ir, fsm, n)
+        for st in (idle, body):
+            ctx.need(TOP not in poss[st], 'values of register %s in state %s' % (n, st))
+            xvals[(n, st)] = sorted(poss[st]) or [ir.signals[n].init or 0]
+    sweep = []
     for st in (idle, body):
         for v_, b_, n_, g_ in itertools.product((0, 1), repeat=4):
             for m_ in range(nmodes):
                 for d_ in datas:
+                    for xv in itertools.product(*[xvals[(n, st)] for n in extra]):
+                        sweep.append((st, v_, b_, n_, g_, m_, d_, dict(zip(extra, xv))))
+    for st, v_, b_, n_, g_, m_, d_, xenv in sweep:
+        if True:
+            if True:
+                if True:
                     env = {V: v_, B: b_, M: m_, N: n_, D: d_, G: g_}
-                    case = 'state=%s(%s) tx_valid=%d bus_idle=%d nxt=%d op_mode=%d tx_data=0x%02x out_req=%d' % (
-                        st, role[st], v_, b_, n_, m_, d_, g_)
+                    env.update(xenv)
+                    case = 'state=%s(%s) tx_valid=%d bus_idle=%d nxt=%d op_mode=%d tx_data=0x%02x out_req=%d%s' % (
+                        st, role[st], v_, b_, n_, m_, d_, g_, ''.join(' %s=%d' % kv for kv in sorted(xenv.items())))
                     dst, ewin = sim.next_state(env, st)
                     ctx.need(dst in fsm.states, 'm.next target %r is a state' % (dst,))
                     out, owin = sim.comb(OUT, env, st)
